@@ -19,6 +19,10 @@ type lcfg2Scenario struct{}
 func init() { scenarios["lcfg2"] = lcfg2Scenario{} }
 
 func (lcfg2Scenario) Config(r *rand.Rand, small bool) string {
+	if r.Intn(5) == 0 {
+		// ONE callback delivered to the tracker races ONE reconfiguration of its healthy time (old = 100(a+1), new = 100(b+1))
+		return fmt.Sprintf("obj=tracker1 a=%d b=%d ev=%s d=%d", r.Intn(6), r.Intn(6), []string{"success", "interrupt"}[r.Intn(2)], 50+100*r.Intn(7))
+	}
 	return fmt.Sprintf("obj=%s a=%d b=%d", []string{"closer", "closer", "opener", "tracker"}[r.Intn(4)], r.Intn(3), 3+r.Intn(3))
 }
 
@@ -91,6 +95,42 @@ func (lcfg2Scenario) Build(cfg string) ([]func(), func(*vsched.Sched) []string) 
 				problems = append(problems, fmt.Sprintf("C02: Config() reports RequestVolumeThreshold=%d but the opener tripped after %d failures", got.RequestVolumeThreshold, k), "C11: two overlapping SetConfigThreadSafe calls on the opener left it configured by a mix of both")
 			}
 			return problems
+		}
+		return bodies, monitor
+	case "tracker1":
+		tr := &responsetimeslo.Tracker{}
+		nameVars(tr, "tr")
+		mk := func(k int64) responsetimeslo.Config { return responsetimeslo.Config{MaximumHealthyTime: time.Duration(100 * (k + 1))} }
+		tr.SetConfigThreadSafe(mk(a))
+		d := time.Duration(cfgInt(cfg, "d"))
+		ev := cfgStr(cfg, "ev")
+		bodies := []func(){func() {
+			if ev == "success" {
+				tr.Success(ctx, base, d)
+			} else {
+				tr.ErrInterrupt(ctx, base, d)
+			}
+		}, func() { tr.SetConfigThreadSafe(mk(b)) }}
+		monitor := func(s *vsched.Sched) []string {
+			pass, fail := tr.MeetsSLOCount.Get(), tr.FailsSLOCount.Get()
+			// what the old / the new healthy time makes of this one callback: (pass, fail)
+			verdict := func(k int64) [2]int64 {
+				h := mk(k).MaximumHealthyTime
+				switch {
+				case ev == "success" && d <= h:
+					return [2]int64{1, 0}
+				case d > h:
+					return [2]int64{0, 1}
+				}
+				return [2]int64{0, 0} // an interrupt within the healthy time counts as nothing
+			}
+			got := [2]int64{pass, fail}
+			if got != verdict(a) && got != verdict(b) {
+				return []string{fmt.Sprintf("C20: one %s of %v racing a change of MaximumHealthyTime %v->%v was counted as pass=%d fail=%d: neither the old verdict %v nor the new one %v",
+					ev, d, mk(a).MaximumHealthyTime, mk(b).MaximumHealthyTime, pass, fail, verdict(a), verdict(b)),
+					"C11: a callback racing a live reconfiguration of the SLO tracker observed a mix of the old and the new setting"}
+			}
+			return nil
 		}
 		return bodies, monitor
 	default:
